@@ -9,7 +9,8 @@ from ..core import Anchor
 PID = "C17"
 LEVEL = "proof"
 CRATES = ["rlib_treap"]
-RELEASE = False
+RELEASE = True
+RELEASE_ALWAYS = True
 ARMED = True
 ENGINES = ["E2", "E9"]
 TECHNIQUE = "whole-program call-graph reachability from the treap crate's public API + effect rules (static mut / unsafe / asm / non-atomic RMW on shared atomics) + compile-pass Send/thread::scope witnesses"
@@ -34,6 +35,7 @@ ASSUMPTIONS = ["TreapItem implementations supplied by the user are safe code", "
 FIXTURES = [
     ("c17_bad_static_mut", "bad", ["U1", "U2"]),
     ("c17_bad_tls_init_static_mut", "bad", ["U1", "U2"]),
+    ("c17_bad_unsafe_sync_static", "bad", ["U1", "U2"]),
     ("c17_bad_atomic_rmw", "bad", ["U1b"]),
     ("c17_good_thread_local", "good", []),
     ("c17_good_mutex", "good", []),
@@ -61,6 +63,11 @@ def check(col, prog, tier, profile, fixture=None):
         for nm in ("TreapNode::<T>::new", "Treap::<T>::insert_at", "TreapNode::<T>::merge", "TreapNode::<T>::split_at"):
             util.need_body(crate, nm)
     reach, ext = util.reachable_calls(prog, roots)
+    if fixture:
+        # the control crates are exported together; the fan-out of unresolved trait calls must not pull
+        # one control's bodies into another's reachable set
+        others = {f[0] for f in FIXTURES} - {fixture}
+        reach = {k: b for k, b in reach.items() if b.crate.name not in others}
     statics = {}
     for c in prog.crates.values():
         for s in c.statics:
@@ -114,8 +121,11 @@ def check(col, prog, tier, profile, fixture=None):
             if s["mut"] and not s["thread_local"]:
                 col.violation("U1", "%s|static-mut|%s" % (util.fkey(b), s["path"]), loc, "%s (reachable from the treap public API) accesses `static mut %s`: unsynchronised shared mutable state, two threads creating treap nodes race on it" % (b.path, s["path"]))
                 col.obligation(False)
+            elif not s["thread_local"] and s.get("freeze") is False and _sync_by_unsafe_impl(prog, s, {x.crate.name for x in reach.values()}):
+                col.violation("U1", "%s|static-unsafe-sync|%s" % (util.fkey(b), s["path"]), loc, "%s (reachable from the treap public API) accesses the shared static %s whose type has interior mutability and is Sync only by an `unsafe impl Sync` written in the workspace: unsynchronised shared mutable state" % (b.path, s["path"]))
+                col.obligation(False)
             else:
-                col.ok("U1", loc, "%s|%s" % (util.fkey(b), s["path"]), "thread_local" if s["thread_local"] else "immutable Sync static of type %s" % s["ty"])
+                col.ok("U1", loc, "%s|%s" % (util.fkey(b), s["path"]), "thread_local" if s["thread_local"] else "immutable Sync static of type %s (%s)" % (s["ty"], "no interior mutability" if s.get("freeze") else "interior mutability through std's synchronised types only"))
                 col.obligation(True)
         # ---- U1b: atomics updated by load + store
         for bb, t in b.calls():
@@ -131,6 +141,14 @@ def check(col, prog, tier, profile, fixture=None):
             col.obligation(False)
     # every static defined in the crates of the reachable set
     crates_reached = {b.crate.name for b in reach.values()}
+    # ---- U2: hand-written `unsafe impl Send/Sync` in those crates (a promise the compiler does not check)
+    for c in prog.crates.values():
+        if c.name not in crates_reached:
+            continue
+        for i in c.impls:
+            if i.get("unsafe") and not i.get("derived") and str(i.get("trait")) in ("std::marker::Sync", "std::marker::Send"):
+                col.violation("U2", "unsafe-impl|%s|%s" % (i.get("trait"), _ty_name(i)), "%s:%d" % (i["span"]["file"], i["span"]["line"]), "`unsafe impl %s` for %s in a crate reachable from the treap public API: thread-safety is asserted by hand, the data-race-freedom guarantee of safe Rust no longer applies to values of that type" % (str(i.get("trait")).rsplit("::", 1)[-1], _ty_name(i)))
+                col.obligation(False)
     for c in prog.crates.values():
         if c.name not in crates_reached:
             continue
@@ -149,6 +167,24 @@ def check(col, prog, tier, profile, fixture=None):
         from . import c16
 
         c16.rule_h4(col, prog, "U5")
+
+
+def _ty_name(i):
+    t = i.get("self_ty")
+    return t if isinstance(t, str) else str((t or {}).get("s") or (t or {}).get("path") or t)
+
+
+def _sync_by_unsafe_impl(prog, s, crates):
+    """some crate of the program contains a hand-written `unsafe impl Sync`: a non-Freeze static can then
+    be Sync without std's synchronisation (exact attribution to the static's type is not attempted; any
+    such impl in the program is reported by U2 as well)"""
+    for c in prog.crates.values():
+        if c.name not in crates:
+            continue
+        for i in c.impls:
+            if i.get("unsafe") and not i.get("derived") and str(i.get("trait")) == "std::marker::Sync":
+                return True
+    return False
 
 
 def _static_refs(b):
